@@ -441,7 +441,7 @@ package ggql
 
 //@ -- ------------------------------------------------------------------ data-structure invariants of parsed documents and loaded schemas
 //@ -- (trusted: established by the parsers; every use is listed under assumptions in the evidence)
-//@ eleminv []Selection: v != nil && ptrval(v) != 0
+//@ eleminv []Selection: v != nil && ptrval(v) != 0 && (is(v, *Field) || is(v, *Inline) || is(v, *FragRef))
 //@ eleminv []*DirectiveUse: v != nil
 //@ eleminv []*ArgValue: v != nil
 //@ eleminv []*VarDef: v != nil
@@ -450,17 +450,25 @@ package ggql
 //@ fieldinv VarDef.Type: v != nil
 
 //@ -- ------------------------------------------------------------------ C06 error paths
-//@ spec errsOK(ea []error) bool = (forall i int {ea[i]} :: 0 <= i && i < len(ea) ==> ea[i] != nil && allocated(aserr(ea[i]))) && (forall i int, j int {ea[i], ea[j]} :: 0 <= i && i < j && j < len(ea) && aserr(ea[i]) != nil ==> aserr(ea[i]) != aserr(ea[j]))
-//@ spec errsFresh(ea []error) bool = errsOK(ea) && (forall i int {ea[i]} :: 0 <= i && i < len(ea) && aserr(ea[i]) != nil ==> fresh(aserr(ea[i])))
+//@ -- Error lists are "owned": every *Error in a list was created for it, later entries were created later.
+//@ -- errsInc(ea, lo, hi): no nil entries; every *Error found in an entry lies in (lo, hi] (allocation order) and
+//@ -- the *Errors are strictly increasing along the list (hence pairwise distinct).
+//@ spec errsInc(ea []error, lo int, hi int) bool reads ea[]
+//@ spec errsIncBody(ea []error, lo int, hi int) bool = (forall i int {ea[i]} :: 0 <= i && i < len(ea) ==> ea[i] != nil && (aserr(ea[i]) != nil ==> lo < addr(aserr(ea[i])) && addr(aserr(ea[i])) <= hi)) && (forall i int, j int {ea[i], ea[j]} :: 0 <= i && i < j && j < len(ea) && aserr(ea[i]) != nil && aserr(ea[j]) != nil ==> addr(aserr(ea[i])) < addr(aserr(ea[j])))
+//@ autoaxiom errsIncUnfold(ea []error, lo int, hi int) {errsInc(ea, lo, hi)}: errsInc(ea, lo, hi) ==> errsIncBody(ea, lo, hi)
+//@ foldaxiom errsIncFold(ea []error, lo int, hi int) {errsInc(ea, lo, hi)}: errsIncBody(ea, lo, hi) ==> errsInc(ea, lo, hi)
+//@ spec errsFresh(ea []error) bool = errsInc(ea, old(#alloc), #alloc)
+//@ spec concatOf(a []error, b []error, c []error) bool = len(c) == len(a) + len(b) && (forall k int {c[k]} :: 0 <= k && k < len(c) ==> c[k] == ite(k < len(a), a[k], b[k - len(a)]))
+//@ autolemma errsIncWeaken(a []error, lo int, hi int, lo2 int, hi2 int) {errsInc(a, lo, hi), errsInc(a, lo2, hi2)}: errsInc(a, lo, hi) && lo2 <= lo && hi <= hi2 ==> errsInc(a, lo2, hi2)
+//@ autolemma errsIncEmpty(a []error, lo int, hi int) {errsInc(a, lo, hi)}: len(a) == 0 ==> errsInc(a, lo, hi)
+//@ autolemma errsIncSingle(a []error, lo int, hi int) {errsInc(a, lo, hi)}: len(a) == 1 && a[0] != nil && (aserr(a[0]) != nil ==> lo < addr(aserr(a[0])) && addr(aserr(a[0])) <= hi) ==> errsInc(a, lo, hi)
+//@ lemma errsIncConcat(a []error, b []error, c []error): forall lo int, m int, m2 int, hi int {errsInc(a, lo, m), errsInc(b, m2, hi)} :: errsInc(a, lo, m) && errsInc(b, m2, hi) && lo <= m && m <= m2 && m2 <= hi && isappend(a, b, c) ==> errsInc(c, lo, hi)
+//@ lemma errsIncSnoc(a []error, b []error, c []error): forall lo int, m int, hi int {errsInc(a, lo, m), errsInc(c, lo, hi)} :: errsInc(a, lo, m) && lo <= m && m <= hi && len(b) == 1 && b[0] != nil && (aserr(b[0]) != nil ==> m < addr(aserr(b[0])) && addr(aserr(b[0])) <= hi) && isappend(a, b, c) ==> errsInc(c, lo, hi)
+//@ appendlemma error errsIncConcat
+//@ appendlemma error errsIncSnoc
+
 //@ spec prefixed(e *Error, loc interface{}) bool = len(e.Path) == old(len(e.Path)) + 1 && e.Path[0] == loc && (forall j int :: 0 <= j && j < old(len(e.Path)) ==> e.Path[j+1] == old(e.Path[j]))
 //@ spec samePath(e *Error) bool = len(e.Path) == old(len(e.Path)) && (forall j int :: 0 <= j && j < len(e.Path) ==> e.Path[j] == old(e.Path[j]))
-
-//@ spec concatOf(a []error, b []error, c []error) bool = len(c) == len(a) + len(b) && (forall k int {c[k]} :: 0 <= k && k < len(c) ==> c[k] == ite(k < len(a), a[k], b[k - len(a)]))
-//@ spec crossDistinct(a []error, b []error) bool = forall i int, j int {a[i], b[j]} :: 0 <= i && i < len(a) && 0 <= j && j < len(b) && aserr(b[j]) != nil ==> aserr(a[i]) != aserr(b[j])
-//@ lemma errsAppend(a []error, b []error, c []error): errsOK(a) && errsOK(b) && crossDistinct(a, b) && concatOf(a, b, c) ==> errsOK(c)
-//@ lemma errsAppendFresh(a []error, b []error, c []error): (forall i int {a[i]} :: 0 <= i && i < len(a) && aserr(a[i]) != nil ==> fresh(aserr(a[i]))) && (forall i int {b[i]} :: 0 <= i && i < len(b) && aserr(b[i]) != nil ==> fresh(aserr(b[i]))) && concatOf(a, b, c) ==> (forall i int {c[i]} :: 0 <= i && i < len(c) && aserr(c[i]) != nil ==> fresh(aserr(c[i])))
-//@ appendlemma error errsAppend
-//@ appendlemma error errsAppendFresh
 
 //@ spec newErr(res error, line int, col int) bool = is(res, *Error) && as(res, *Error) != nil && fresh(as(res, *Error)) && allocated(as(res, *Error)) && as(res, *Error).Line == line && as(res, *Error).Column == col && as(res, *Error).Base != nil
 
@@ -514,7 +522,7 @@ package ggql
 //@   props C06
 //@   check panic {C03}
 //@   check frame {C06}
-//@   requires errsOK(err)
+//@   requires errsInc(err, 0, #alloc)
 //@   ensures[each-once] forall i int :: 0 <= i && i < len(err) && aserr(err[i]) != nil ==> prefixed(aserr(err[i]), loc)
 //@   assigns fresh, forall i in err: aserr(err[i]).Path
 //@   loop 0: invariant[bounds] 0 <= rangeindex+1 && rangeindex+1 <= len(err)
